@@ -96,7 +96,9 @@ def main():
         Q.set_internal_sigmoid(c["sig"])
         q = make_fixed(c)
       elif c.get("sig") == "realflag":      # use_real_sigmoid / use_real_tanh bypass the library-wide mode
-        q = make_fixed(c, **({"use_real_tanh": True} if c["cls"] == "tanh" else {"use_real_sigmoid": True}))
+        # (given as True or as the integer 1 - the form str(q) prints and a quantizer string produces)
+        flag = True if ci % 2 else 1
+        q = make_fixed(c, **({"use_real_tanh": flag} if c["cls"] == "tanh" else {"use_real_sigmoid": flag}))
       else:
         q = make_fixed(c)
       full = (tier == "thorough") or c["bits"] <= 5
